@@ -3,6 +3,27 @@ pid, wt, out = sys.argv[1:4]
 for l in open('/verif/properties.jsonl'):
     p=json.loads(l)
     if p['id']==pid: break
+import glob, os
+EXTRA = {  # changes delivered earlier whose artefacts are not under seeded/ (lost or duplicates)
+ "C03": ["AND(SHL(X,Y),SHL(X,Z)) rule ignoring a second consumer of the rewritten SHL"],
+ "C05": ["memory matching in the checker starting at the index where storage matching stopped"],
+ "C07": ["accumulated offset in the position bounds of a third operand (ADDMOD/MULMOD)"],
+ "C09": ["AsmBytecode objects of regenerated instructions shared through lru_cache"],
+ "C11": ["exact opcode match dropping MSTORE8 from the checker's memory matching"],
+ "C16": ["MSTORE8 counted twice in the minimal length"],
+}
+used = []
+for mf in sorted(glob.glob('/verif/seeded/s*/meta.json')):
+    m = json.load(open(mf))
+    if m['breaks_property'] == pid:
+        used.append("%s (%s): needs %s" % (os.path.basename(os.path.dirname(mf)).split('_', 1)[1].replace('_', ' '),
+                                            ', '.join(m['files_changed']), m['needs_to_manifest']))
+used += EXTRA.get(pid, [])
+USED = ""
+if used and len(sys.argv) > 4 and sys.argv[4] == "--novel":
+    USED = ("\nALREADY TAKEN -- other people have already submitted the following changes for this property; yours must use a DIFFERENT "
+            "site and a DIFFERENT mechanism (a different function, ideally a different file or a different stage of the pipeline), "
+            "so do not resubmit any of these or a close variant:\n" + "".join("  - %s\n" % u for u in used))
 print(f"""You are helping to evaluate a verification effort by writing a *seeded defect* for an open-source Python project.
 
 The project is costa-group/gasol-optimizer (GASOL: an EVM basic-block super-optimizer). You have your own private git worktree of it at {wt} (Python interpreter with all dependencies: /venv/bin/python). Work ONLY inside {wt} and {out}. Do not read or touch /verif or /repo.
@@ -19,7 +40,7 @@ YOUR TASK: make ONE small, realistic change to the project's source code (the ki
   (b) the project's existing test-suite still passes exactly as before. Check with:
       cd {wt} && /venv/bin/python -m pytest -q -p no:cacheprovider --timeout=900 --continue-on-collection-errors 2>&1 | tail -5
       (it takes about 3 minutes; on the unmodified tree the summary is "53 failed, 48 passed, ... 1 error" -- the same tests must pass/fail after your change).
-Prefer a change that needs something SPECIFIC to manifest -- a particular input shape, operand value, option combination, multi-step sequence, or two cooperating sites that each look fine alone -- not one that breaks every run. Do not merely delete a whole feature or make everything crash. Do not edit tests.
+{USED}Prefer a change that needs something SPECIFIC to manifest -- a particular input shape, operand value, option combination, multi-step sequence, or two cooperating sites that each look fine alone -- not one that breaks every run. Do not merely delete a whole feature or make everything crash. Do not edit tests.
 
 Useful facts: the command line is `cd <dir> && /venv/bin/python {wt}/gasol_asm.py <input> [options]`; `-bl` treats the input as a text file with one block of EVM assembly (e.g. `PUSH1 0x01 DUP2 ADD SWAP1 POP`); `-greedy` selects the greedy back-end (no external solver is installed, so always use -greedy); other options: -storage, -partition, -size, -length, -no-simplification, -push0, -log, -optimize-from-log <file>; without -bl the input is a solc `--combined-json asm` file (examples under {wt}/examples/jsons-solc). Output files are written to the current directory (named `<input name>_optimized.*`; glob for it), together with `<name>_statistics_seq.csv`, `<name>_statistics_blocks.csv` and, with -log, `<name>.log`. You can also call the Python functions directly (gasol_asm.optimize_asm_block_asm_format, compare_asm_block_asm_format, sfs_generator.parser_asm.parse_blocks_from_plain_instructions, greedy.block_generation.greedy_from_json, ...). Beware: some inputs make the tool very slow; always run your experiments under `timeout 120`.
 
